@@ -746,3 +746,78 @@ def rule_category_sets(repo, col):
     col.soft(k >= 1, rule, TABLE, 'Table.to_hdf5', 'category-compare:'
              'instances', fn, '%d comparisons' % k,
              'category comparison not found')
+
+
+def rule_dup_test_on_result(repo, col):
+    """OR-COPERM (renaming): whether a renaming produces duplicate ids is
+    decided on the resulting id array, not against the ids in use before
+    the renaming (a name given up in the same call is free)."""
+    rule = 'OR-COPERM'
+    fn = repo.func(TABLE, 'Table.update_ids')
+    par = _parents(fn)
+    ass = local_assignments(fn)
+    # names holding the new id array: allocated and filled by position
+    result_names = {dotted(n.targets[0].value) for n in body_walk(fn)
+                    if isinstance(n, ast.Assign) and isinstance(
+                        n.targets[0], ast.Subscript)}
+    result_names.discard(None)
+    k = 0
+    for n in body_walk(fn):
+        if isinstance(n, ast.Raise) and 'uplicate' in unparse(n, 200):
+            k += 1
+            cur, guards = n, []
+            while id(cur) in par:
+                cur = par[id(cur)]
+                if isinstance(cur, ast.If):
+                    guards.append(cur.test)
+            names = {x.id for g in guards for x in ast.walk(g)
+                     if isinstance(x, ast.Name)}
+            on_result = bool(names & result_names)
+            col.check(on_result, rule, TABLE, 'Table.update_ids',
+                      'duplicates-on-result#%d' % k, n,
+                      'duplicates are looked for among the new ids',
+                      'duplicate ids are refused by a test that does not '
+                      'look at the new id array (%s): a valid renaming that '
+                      'reuses a name given up in the same call (swap, '
+                      'rotation) is refused'
+                      % ', '.join(unparse(g, 50) for g in guards[:2]))
+    col.ok(rule, TABLE, 'Table.update_ids', 'duplicates-on-result:scan', fn,
+           '%d duplicate refusals' % k)
+
+
+def rule_convert_single_write(repo, col):
+    """SB-TSVPATHS (CLI): `biom convert --to-tsv` writes the text once:
+    either the table streams it (direct_io) or the returned text is
+    written, not both."""
+    rule = 'SB-TSVPATHS'
+    rel = 'biom/cli/table_converter.py'
+    fn = repo.func(rel, '_convert')
+    calls = [n for n in body_walk(fn) if isinstance(n, ast.Call) and
+             isinstance(n.func, ast.Attribute) and n.func.attr == 'to_tsv']
+    for c in calls:
+        if kwarg(c, 'direct_io') is None:
+            col.ok(rule, rel, '_convert', 'single-write', c,
+                   'the returned text is written by the caller')
+            continue
+        par = _parents(fn)
+        p = par.get(id(c))
+        names = set()
+        if isinstance(p, ast.Assign):
+            names = {t.id for t in p.targets if isinstance(t, ast.Name)}
+        again = [w for w in body_walk(fn) if isinstance(w, ast.Call) and
+                 isinstance(w.func, ast.Attribute) and
+                 w.func.attr == 'write' and w.args and
+                 isinstance(w.args[0], ast.Name) and w.args[0].id in names]
+        col.check(not again, rule, rel, '_convert', 'single-write',
+                  again[0] if again else c,
+                  'streamed output is not written a second time',
+                  'the table streams its text to the file (direct_io) and '
+                  'the returned value is written as well: the header lines '
+                  'appear a second time after the last row, which the '
+                  'reader takes for data')
+
+
+RULE_TEXT.setdefault('OR-COPERM', ' '.join(
+    rule_dup_test_on_result.__doc__.split()))
+RULE_TEXT.setdefault('SB-TSVPATHS', ' '.join(
+    rule_convert_single_write.__doc__.split()))
